@@ -15,7 +15,8 @@ import (
 
 // C01 / C07 through the whole broker ("provider": "broker"): the same histories, but every subscribe /
 // unsubscribe / publish / retained publish is a packet sent by a real client connection (sessions 1 and 2 speak
-// MQTT 5.0, session 3 speaks 3.1.1, one more v5 connection publishes), so the session layer between the
+// MQTT 5.0, session 3 speaks 3.1.1, a v5 and a 3.1.1 connection publish in turn, every other v5 subscription carries a
+// Subscription Identifier), so the session layer between the
 // connection and the topic index (clients/session.go: what is forwarded to the index, under which filter) is part
 // of what is compared with the model.  A retained publish is also a publish: it is routed like any other.
 // "share": the filter goes on the wire as $share/g<session>/<filter> - a share group with a single member, which is
@@ -30,6 +31,8 @@ type c01Broker struct {
 	sess    map[int]*Auto
 	seen    map[int]int
 	pub     *Auto
+	pub4    *Auto // a second publisher speaking MQTT 3.1.1: every other publish goes through it
+	npub    int
 	pkid    uint16
 	subid   uint16
 	failure string
@@ -149,18 +152,23 @@ func (r *c01Broker) news(id int) []*mqttp.Publish {
 
 func (r *c01Broker) publish(topic string, payload []byte, qos byte, retain bool) ([]int, error) {
 	r.pkid++
-	nAck := r.pub.CountOthers(mqttp.PUBACK)
-	nComp := r.pub.CountOthers(mqttp.PUBCOMP)
-	if err := r.pub.SendL(mkPublish(mqttp.ProtocolV50, topic, payload, qos, retain, r.pkid)); err != nil {
+	r.npub++
+	pub := r.pub
+	if r.npub%2 == 0 {
+		pub = r.pub4
+	}
+	nAck := pub.CountOthers(mqttp.PUBACK)
+	nComp := pub.CountOthers(mqttp.PUBCOMP)
+	if err := pub.SendL(mkPublish(pub.Ver, topic, payload, qos, retain, r.pkid)); err != nil {
 		return nil, err
 	}
-	if qos == 1 && !waitOther(r.pub, mqttp.PUBACK, nAck) {
+	if qos == 1 && !waitOther(pub, mqttp.PUBACK, nAck) {
 		return nil, fmt.Errorf("no PUBACK")
 	}
-	if qos == 2 && !waitOther(r.pub, mqttp.PUBCOMP, nComp) {
+	if qos == 2 && !waitOther(pub, mqttp.PUBCOMP, nComp) {
 		return nil, fmt.Errorf("no PUBCOMP")
 	}
-	if !pingBarrier(r.pub) {
+	if !pingBarrier(pub) {
 		return nil, fmt.Errorf("publisher ping barrier")
 	}
 	if retain && !r.retBarrier() {
@@ -188,7 +196,7 @@ func (r *c01Broker) publish(topic string, payload []byte, qos byte, retain bool)
 func (p *c01Prop) runBroker(c *c01Case) interface{} {
 	obs := &c01Obs{}
 	r := &c01Broker{sess: map[int]*Auto{}, seen: map[int]int{}}
-	b, err := NewBroker(BrokerOpts{SubsShared: true, OnTopics: func(tp topicsTypes.Provider) error {
+	b, err := NewBroker(BrokerOpts{SubsShared: true, SubsID: true, OnTopics: func(tp topicsTypes.Provider) error {
 		return tp.Subscribe(topicsTypes.SubscribeReq{Filter: "zz/marker", S: &markStub{r}, Params: vlsubscriber.SubscriptionParams{Ops: mqttp.SubscriptionOptions(0 | 0x20)}}).Err
 	}})
 	if err != nil {
@@ -203,6 +211,12 @@ func (p *c01Prop) runBroker(c *c01Case) interface{} {
 		return obs
 	}
 	r.pub = pc.Auto(false)
+	pc4 := b.Dial()
+	if _, err = pc4.Connect(ConnectOpts{ID: "c01pub4", Ver: mqttp.ProtocolV311, Clean: true}); err != nil {
+		obs.Err = "publisher (3.1.1): " + err.Error()
+		return obs
+	}
+	r.pub4 = pc4.Auto(false)
 	for k, op := range c.Ops {
 		st := c01Step{}
 		fail := func(f string, a ...interface{}) { obs.Err = fmt.Sprintf("step %d: ", k) + fmt.Sprintf(f, a...) }
@@ -224,7 +238,12 @@ func (p *c01Prop) runBroker(c *c01Case) interface{} {
 					ops |= byte(op.RH) << 4
 				}
 				n := a.CountOthers(mqttp.SUBACK)
-				_ = a.SendL(mkSubscribe(a.Ver, r.subid, []string{filter}, []byte{ops}))
+				sp := mkSubscribe(a.Ver, r.subid, []string{filter}, []byte{ops})
+				if a.Ver == mqttp.ProtocolV50 && r.subid%2 == 1 {
+					// every other v5 subscription carries a Subscription Identifier: what is routed to it gets a property
+					_ = sp.PropertySet(mqttp.PropertySubscriptionIdentifier, uint32(r.subid))
+				}
+				_ = a.SendL(sp)
 				if !waitOther(a, mqttp.SUBACK, n) {
 					fail("no SUBACK for %q", filter)
 					break
